@@ -117,3 +117,19 @@ def poisson_like(rng, n):
     A += np.diag([rng.choice([0, 0.25, 1]) for _ in range(n)])
     A[0, 0] += 0.5
     return A
+
+
+def unsorted_copy(A, rng):
+    """the same CSR matrix with the entries of every row stored in a shuffled order (has_sorted_indices = False)"""
+    import scipy.sparse as sp
+    A = sp.csr_array(A).copy()
+    A.sort_indices()
+    ind, dat = A.indices.copy(), A.data.copy()
+    for i in range(A.shape[0]):
+        lo, hi = int(A.indptr[i]), int(A.indptr[i + 1])
+        perm = list(range(lo, hi))
+        rng.shuffle(perm)
+        ind[lo:hi], dat[lo:hi] = A.indices[perm], A.data[perm]
+    B = sp.csr_array((dat, ind, A.indptr.copy()), shape=A.shape)
+    B.has_sorted_indices = False
+    return B
